@@ -380,7 +380,7 @@ BLOCKS = [
     ("number", "",
      '<xsl:for-each select="//text() | //*"><xsl:number level="any" count="text()"/>.<xsl:number level="single" count="node()"/>.'
      '<xsl:number level="multiple" count="node()" format="1.1"/>.<xsl:number/>.<xsl:number level="any" count="*"/>.<xsl:number level="single" count="node()" from="b"/>.<xsl:number level="multiple" count="text()|c" from="a"/>;</xsl:for-each>'),
-    # the class of the known finding K-C13-2 (never sampled by the generators; see props/C13.py)
+    # level="any" with from patterns (was the class of K-C13-2, repaired in /repo by d323070)
     ("number-any-from", "",
      '<xsl:for-each select="//text() | //*"><xsl:number level="any" count="node()" from="b"/>.<xsl:number level="any" count="text()" from="a|c"/>.<xsl:number level="any" from="*"/>;</xsl:for-each>'),
     ("copy",
@@ -419,7 +419,7 @@ BLOCKS = [
      '<xsl:value-of select="count($t)"/>[<xsl:value-of select="$t"/>]|<xsl:for-each select="//*"><xsl:value-of select="%s"/>,</xsl:for-each>'
      % (TR % ".", TR % "text()")),
 ]
-KNOWN_CLASS_BLOCKS = {"number-any-from": "K-C13-2"}
+KNOWN_CLASS_BLOCKS = {}
 BLOCK_NAMES = [b[0] for b in BLOCKS if b[0] not in KNOWN_CLASS_BLOCKS]
 
 
